@@ -319,6 +319,21 @@ impl<'a> ScriptRead<'a> {
     }
 }
 
+/// The kind of the injected error number `k`: a source may fail with any kind, and the kind is part of what the caller must get back.
+/// (`Interrupted` is left out: `Read` documents it as "retry", so swallowing it is allowed.)
+pub fn inj_kind(k: u32) -> io::ErrorKind {
+    const KINDS: [io::ErrorKind; 7] = [
+        io::ErrorKind::Other,
+        io::ErrorKind::UnexpectedEof,
+        io::ErrorKind::WouldBlock,
+        io::ErrorKind::TimedOut,
+        io::ErrorKind::BrokenPipe,
+        io::ErrorKind::InvalidData,
+        io::ErrorKind::ConnectionReset,
+    ];
+    KINDS[(k % 7) as usize]
+}
+
 impl<'a> Read for ScriptRead<'a> {
     fn read(&mut self, buf: &mut [u8]) -> io::Result<usize> {
         self.reads += 1;
@@ -353,7 +368,7 @@ impl<'a> Read for ScriptRead<'a> {
                     Some(RStep::Fail(k)) => {
                         let k = *k;
                         self.idx += 1;
-                        return Err(io::Error::new(io::ErrorKind::Other, format!("inj-{}", k)));
+                        return Err(io::Error::new(inj_kind(k), format!("inj-{}", k)));
                     }
                 }
             }
@@ -466,6 +481,10 @@ pub struct RecDest {
     pub writes: usize,
     pub flushes: usize,
     pub partial_writes: usize,
+    /// true: `write_vectored` gathers from all the buffers it is given (as sockets, pipes and files do), still honouring the schedule;
+    /// false: std's default, which hands the first non-empty buffer to `write`
+    pub gather: bool,
+    pub vectored_calls: usize,
 }
 
 impl RecDest {
@@ -499,6 +518,42 @@ impl Write for RecDest {
         }
         self.buf.extend_from_slice(&b[..n]);
         Ok(n)
+    }
+    fn write_vectored(&mut self, bufs: &[io::IoSlice<'_>]) -> io::Result<usize> {
+        self.vectored_calls += 1;
+        if !self.gather {
+            let first = bufs.iter().find(|b| !b.is_empty()).map_or(&[][..], |b| &**b);
+            return self.write(first);
+        }
+        self.writes += 1;
+        let total: usize = bufs.iter().map(|b| b.len()).sum();
+        if total == 0 {
+            return Ok(0);
+        }
+        let mut n = match self.sched.get(self.idx) {
+            None => total,
+            Some(0) => {
+                self.idx += 1;
+                return Err(io::Error::new(io::ErrorKind::Interrupted, "interrupted"));
+            }
+            Some(&k) => {
+                self.idx += 1;
+                k.min(total)
+            }
+        };
+        if n < total {
+            self.partial_writes += 1;
+        }
+        let accepted = n;
+        for b in bufs {
+            let k = n.min(b.len());
+            self.buf.extend_from_slice(&b[..k]);
+            n -= k;
+            if n == 0 {
+                break;
+            }
+        }
+        Ok(accepted)
     }
     fn flush(&mut self) -> io::Result<()> {
         self.flushes += 1;
